@@ -184,10 +184,22 @@ def gen_comp(rng):
     steps = [rng.choice([2, 3, 4, 5, 7])]
     if rng.random() < 0.4:
         steps.append(rng.choice([1, 2, 6]))
-    order = [0, 1]
+    comps = [{"kind": "time", "start": 0, "steps": [1]}, {"kind": "time", "start": 0, "steps": steps}]
+    links = [{"src": 0, "out": 0, "dst": 1, "ads": chain}]
+    if rng.random() < 0.35:
+        # one or two pull-based components on the way; the delay chain sits downstream of the first one
+        # (src >> P >> chain >> cons   or   src >> P1 >> chain >> P2 >> cons)
+        chain = [a for a in chain if a[0] != "dpull"] or [["dfix", rng.randint(1, 6)]]
+        comps.append({"kind": "pull", "nout": 1})
+        links = [{"src": 0, "out": 0, "dst": 2, "ads": [["scale"]] if rng.random() < 0.3 else []}]
+        if rng.random() < 0.5:
+            comps.append({"kind": "pull", "nout": 1})
+            links += [{"src": 2, "out": 0, "dst": 3, "ads": chain}, {"src": 3, "out": 0, "dst": 1, "ads": []}]
+        else:
+            links += [{"src": 2, "out": 0, "dst": 1, "ads": chain}]
+    order = list(range(len(comps)))
     rng.shuffle(order)
-    return {"comps": [{"kind": "time", "start": 0, "steps": [1]}, {"kind": "time", "start": 0, "steps": steps}],
-            "links": [{"src": 0, "out": 0, "dst": 1, "ads": chain}], "order": order, "end": rng.randint(10, 40)}
+    return {"comps": comps, "links": links, "order": order, "end": rng.randint(10, 40)}
 
 
 def oracle_comp(spec, impl):
